@@ -31,6 +31,26 @@ func init() {
 			Classify: deadlockIs("liveness: threads blocked forever on a healthy session"),
 			Main: func() {
 				r := newMuxRig(rigCfg{conns: nconn, method: method, unit: unit, wlimit: c.PI("wlimit", 0)})
+				if c.P("preclose", "0") == "1" {
+					// history: an earlier stream of this session has come and gone (opened, used and closed by this side)
+					p, err := r.cli.OpenStream()
+					if err != nil {
+						vrt.Fail("harness", "OpenStream: %v", err)
+					}
+					p.Write([]byte{0xEE})
+					x, err := r.srv.Accept()
+					if err != nil {
+						vrt.Fail("harness", "Accept: %v", err)
+					}
+					p.Close()
+					b := make([]byte, 8)
+					for {
+						if _, err := x.Read(b); err != nil {
+							break
+						}
+					}
+					quiesce()
+				}
 				var wg sync.WaitGroup
 				total, stotal := sum(writes), sum(swrites)
 				got := make([][]byte, nstream)  // server side, indexed by stream tag
@@ -186,6 +206,7 @@ func init() {
 			{Scenario: "mux.transfer", Params: vx.P("conns", "2", "streams", "2", "writes", "5", "delay", "1"), Bound: b(2, 3), Weight: 9},
 			{Scenario: "mux.transfer", Params: vx.P("conns", "1", "streams", "2", "writes", "5"), Bound: b(1, 2), Weight: 7},
 			{Scenario: "mux.transfer", Params: vx.P("conns", "2", "streams", "2", "writes", "5,3", "pool", "recycle", "delay", "1"), Bound: b(1, 2), Weight: 7},
+			{Scenario: "mux.transfer", Params: vx.P("conns", "1", "streams", "2", "writes", "300", "unit", "256", "pool", "recycle", "preclose", "1"), Bound: b(1, 2), Weight: 7},
 			// back-pressure: a Write blocks while the peer's receive loop has not taken the previous message
 			{Scenario: "mux.transfer", Params: vx.P("conns", "2", "streams", "2", "writes", "5,3", "both", "1", "swrites", "4", "wlimit", "1", "delay", "1"), Bound: b(1, 2), Weight: 9},
 			{Scenario: "mux.transfer", Params: vx.P("conns", "2", "streams", "1", "writes", "16133", "unit", "0", "rbuf", "20000"), Bound: b(1, 2), Weight: 3},
@@ -214,6 +235,8 @@ func init() {
 			vx.Job{Scenario: "mux.timeout", Params: vx.P("op", "open"), Bound: b(2, 3), Weight: 4},
 			vx.Job{Scenario: "mux.timeout", Params: vx.P("op", "reopen"), Bound: b(2, 3), Weight: 4},
 			vx.Job{Scenario: "mux.timeout", Params: vx.P("op", "accept"), Bound: b(1, 2), Weight: 4},
+			// more streams pending acceptance than the accept queue holds (1024)
+			vx.Job{Scenario: "mux.backlogged", Params: vx.P("streams", "1032"), Bound: 0, Weight: 8},
 			// a slow consumer: 6 MiB unread on one stream, which is then given up; the other stream keeps working
 			vx.Job{Scenario: "mux.backlog", Params: vx.P("mb", "6", "close", "1"), Bound: b(0, 1), Weight: 4},
 			vx.Job{Scenario: "mux.backlog", Params: vx.P("mb", "6", "close", "0"), Bound: 0, Weight: 4},
